@@ -31,6 +31,12 @@ def one(sid):
             try:
                 R, _, _ = cli.run_property(p2, d, "quick", ctx)
             except AnalysisError as x:
+                part = getattr(x, "partial", None)
+                if part is not None:
+                    new_p, _, _ = cli.classify(p2, part[0], known)
+                    if new_p:
+                        detected[p2] = [o.key for o in new_p][:6]
+                        continue
                 detected[p2] = ["ANALYSIS-ERROR: %s" % str(x)[:200]]
                 continue
             except Exception as x:
